@@ -2049,6 +2049,11 @@ def hyperboloid_coords(points, column_vectors=False):
     dim = proj_coords.shape[-1]
     hyperbolized = utils.normalize(proj_coords, minkowski(dim))
 
+    # x and -x are the same point of hyperbolic space: the hyperboloid
+    # model is the future sheet, so the coordinates must not depend on
+    # the sign of the homogeneous coordinates
+    hyperbolized = hyperbolized * np.where(hyperbolized[..., :1] < 0, -1, 1)
+
     if column_vectors:
         hyperbolized = hyperbolized.swapaxes(-1, -2)
 
